@@ -375,7 +375,8 @@ impl Family for Corruptions {
 
 
 /// "... so that in the compiler a malformed generator reply becomes a diagnostic": every truncation and every
-/// single-byte substitution (by 0x00, 0x01, 0x7f, 0x80, 0xff, byte+1) of a valid reply with two files and two
+/// single-byte substitution (by 0x00, 0x01, 0x7f, 0x80, 0xff, byte+1, byte-4, byte+4: the last two shorten / lengthen
+/// a one-byte size prefix by one, so that a string ends inside a multi-byte character) of a valid reply with two files and two
 /// diagnostics is sent to the real slicec binary by a fake generator.  The reference decoder says whether a reply
 /// decodes; if it does not, slicec must end with an error diagnostic and a non-zero exit status (no crash, no
 /// hang, no silence); if it does (and nothing follows it), slicec must accept it.
@@ -394,7 +395,7 @@ impl RepliesThroughTheCompiler {
             return self.base[..idx as usize].to_vec(); // every truncation, the full reply last
         }
         let k = idx - n - 1;
-        let (pos, which) = ((k / 6) as usize, k % 6);
+        let (pos, which) = ((k / 8) as usize, k % 8);
         let mut v = self.base.clone();
         v[pos] = match which {
             0 => 0x00,
@@ -402,17 +403,19 @@ impl RepliesThroughTheCompiler {
             2 => 0x7f,
             3 => 0x80,
             4 => 0xff,
-            _ => v[pos].wrapping_add(1),
+            5 => v[pos].wrapping_add(1),
+            6 => v[pos].wrapping_sub(4),
+            _ => v[pos].wrapping_add(4),
         };
         v
     }
 }
 impl Family for RepliesThroughTheCompiler {
     fn name(&self) -> String {
-        format!("replies-through-the-compiler/every truncation and 6 substitutions at every byte of a valid {}-byte reply, sent to the real slicec binary", self.base.len())
+        format!("replies-through-the-compiler/every truncation and 8 substitutions at every byte of a valid {}-byte reply, sent to the real slicec binary", self.base.len())
     }
     fn len(&self) -> u64 {
-        self.base.len() as u64 * 7 + 1
+        self.base.len() as u64 * 9 + 1
     }
     fn hang_secs(&self) -> f64 {
         120.0
